@@ -149,6 +149,16 @@ func runC18(c *Ctx, r *Rec) {
 		}
 		r.check(bad == "", "D2-result-fresh", construct, c.pos(fd.Pos()), "built by a class constructor in this call; never an argument handed back", bad)
 	}
+	// what Fork and Split return is left to the caller (decided by the C06 machinery)
+	{
+		tmp := newRec(r.Property)
+		runC06(c, tmp)
+		for _, o := range tmp.Obls {
+			if o.Rule == "D2-result-left-to-the-caller" {
+				r.Obls = append(r.Obls, o)
+			}
+		}
+	}
 	checkCellsNotShared(c, r, "D2-cells-not-shared")
 	r.count("slice/map parameters", nD1)
 	r.count("container results", nD2)
